@@ -10,111 +10,134 @@ Import ListNotations.
 Local Open Scope nat_scope.
 
 (* ------------------------------------------------------------------ *)
-(* definitions needed to read the statements                            *)
+(* definitions needed to read the statements: they live in Lemmas_C11.v  *)
+(* and are restated here as checked equations (all by reflexivity)       *)
 (* ------------------------------------------------------------------ *)
 
 (* TextDefs.text_of l : the NUL-terminated text at the start of the buffer l *)
 
-Definition nl_text (cr : bool) : list N := if cr then [ch_CR; ch_LF] else [ch_LF].
+Example def_nl_text : forall cr, nl_text cr = if cr then [ch_CR; ch_LF] else [ch_LF].
+Proof. reflexivity. Qed.
 
 (* the NUL-terminated C string selected by the write-buffer pointer *)
-Definition wb_text (wb : wbuf) (main : list N) : list N :=
-  match wb with WB_NL cr => nl_text cr ++ [0%N] | WB_MAIN => main end.
+Example def_wb_text : forall wb main,
+  wb_text wb main = match wb with WB_NL cr => nl_text cr ++ [0%N] | WB_MAIN => main end.
+Proof. reflexivity. Qed.
 
 (* bytes the CURRENT phase still has to send: from the cursor to the NUL of the selected text *)
-Definition phase_rest (wb : wbuf) (main : list N) (pos : nat) : list N :=
-  text_of (skipn pos (wb_text wb main)).
+Example def_phase_rest : forall wb main pos,
+  phase_rest wb main pos = text_of (skipn pos (wb_text wb main)).
+Proof. reflexivity. Qed.
 
-(* what the flush engine does when the cursor is on the terminating NUL *)
-Definition phase_switch_c (s : state) : state :=
+(* what the flush engine does when the cursor is on the terminating NUL (gR: ghost counter) *)
+Example def_phase_switch_c : forall s,
+  phase_switch_c s =
   match k_wstate (k s) with
   | WS_BEFORE => s |> setk_position 0 |> setk_wbuf WB_MAIN |> setk_wstate WS_MAIN
   | WS_MAIN => s |> setk_position 0 |> setk_wbuf (WB_NL (k_cr (k s))) |> setk_wstate WS_AFTER
   | WS_AFTER =>
     let s1 := setk_state (k_wafter (k s)) s in
-    if cstate_beq (k_wafter (k s)) CS_AFTER_RESET then set_gR (S (gR s1)) s1 else s1   (* gR: ghost counter *)
+    if cstate_beq (k_wafter (k s)) CS_AFTER_RESET then set_gR (S (gR s1)) s1 else s1
   end.
-Definition phase_switch_u (s : state) : state :=
+Proof. reflexivity. Qed.
+Example def_phase_switch_u : forall s,
+  phase_switch_u s =
   match u_wstate (u s) with
   | WS_BEFORE => s |> setu_position 0 |> setu_wbuf WB_MAIN |> setu_wstate WS_MAIN
   | WS_MAIN => s |> setu_position 0 |> setu_wbuf (WB_NL (k_cr (k s))) |> setu_wstate WS_AFTER
   | WS_AFTER => setu_state (u_wafter (u s)) s
   end.
+Proof. reflexivity. Qed.
 
 (* one step of the flush engine when the write (if any) is accepted, with the emitted byte *)
-Definition flush_step_c (s : state) : state * option N :=
+Example def_flush_step_c : forall s,
+  flush_step_c s =
   match wbuf_char (k_wbuf (k s)) (cbuf s) (k_position (k s)) with
   | None => (set_fault_flag s, None)
   | Some ch => if (ch =? 0)%N then (phase_switch_c s, None)
                else (setk_position (S (k_position (k s))) s, Some ch)
   end.
-Definition flush_step_u (s : state) : state * option N :=
+Proof. reflexivity. Qed.
+Example def_flush_step_u : forall s,
+  flush_step_u s =
   match wbuf_char (u_wbuf (u s)) (ubuf s) (u_position (u s)) with
   | None => (set_fault_flag s, None)
   | Some ch => if (ch =? 0)%N then (phase_switch_u s, None)
                else (setu_position (S (u_position (u s))) s, Some ch)
   end.
+Proof. reflexivity. Qed.
 
 (* n accepted steps, collecting the emitted bytes *)
-Fixpoint run_flush_c (n : nat) (s : state) : state * list N :=
-  match n with
-  | O => (s, [])
-  | S n' =>
-    let (s1, o) := flush_step_c s in
-    let (s2, out) := run_flush_c n' s1 in
-    (s2, match o with Some c => c :: out | None => out end)
-  end.
-Fixpoint run_flush_u (n : nat) (s : state) : state * list N :=
-  match n with
-  | O => (s, [])
-  | S n' =>
-    let (s1, o) := flush_step_u s in
-    let (s2, out) := run_flush_u n' s1 in
-    (s2, match o with Some c => c :: out | None => out end)
-  end.
+Example def_run_flush_c : forall s n,
+  run_flush_c 0 s = (s, []) /\
+  run_flush_c (S n) s =
+    (let (s1, o) := flush_step_c s in
+     let (s2, out) := run_flush_c n s1 in
+     (s2, match o with Some c => c :: out | None => out end)).
+Proof. split; reflexivity. Qed.
+Example def_run_flush_u : forall s n,
+  run_flush_u 0 s = (s, []) /\
+  run_flush_u (S n) s =
+    (let (s1, o) := flush_step_u s in
+     let (s2, out) := run_flush_u n s1 in
+     (s2, match o with Some c => c :: out | None => out end)).
+Proof. split; reflexivity. Qed.
 
 (* write attempts (producer, byte, accepted) of a list of events, in the order of the list *)
-Definition writes (evs : list event) : list (fsm * N * bool) :=
-  flat_map (fun e => match e with EWr f ch ok => [(f, ch, ok)] | _ => [] end) evs.
+Example def_writes : forall evs,
+  writes evs = flat_map (fun e => match e with EWr f ch ok => [(f, ch, ok)] | _ => [] end) evs.
+Proof. reflexivity. Qed.
 (* accepted bytes with their producer *)
-Definition accepted_wr (h : list event) : list (fsm * N) :=
-  flat_map (fun e => match e with EWr f ch true => [(f, ch)] | _ => [] end) h.
+Example def_accepted_wr : forall h,
+  accepted_wr h = flat_map (fun e => match e with EWr f ch true => [(f, ch)] | _ => [] end) h.
+Proof. reflexivity. Qed.
 
 (* the flush exclusion (a conjunct of the control invariant J of SkelInv.v) *)
-Definition excl (s : state) : Prop := ~ (k_state (k s) = CS_FLUSH /\ u_state (u s) = US_FLUSH).
+Example def_excl : forall s,
+  excl s = ~ (k_state (k s) = CS_FLUSH /\ u_state (u s) = US_FLUSH).
+Proof. reflexivity. Qed.
 
 (* the event machine's registers and buffer, without its queue (ring, tail, head, count) *)
-Definition upart (s : state) :=
+Example def_upart : forall s,
+  upart s =
   (u_state (u s), u_index (u s), u_position (u s), u_cmd (u s), u_var (u s), u_type (u s),
    u_wbuf (u s), u_wstate (u s), u_wafter (u s), ubuf s).
+Proof. reflexivity. Qed.
 (* the command machine's registers and buffer, without k_state, k_hold, k_hold_exit *)
-Definition kpart (s : state) :=
+Example def_kpart : forall s,
+  kpart s =
   (cbuf s, k_index (k s), k_partial (k s), k_length (k s), k_position (k s), k_write_size (k s),
    k_cmd (k s), k_var (k s), k_type (k s), k_char (k s), k_cr (k s), k_wbuf (k s), k_wstate (k s),
    k_wafter (k s), k_implicit (k s)).
+Proof. reflexivity. Qed.
 
 (* what the command machine still has to send to complete the unit in flight, computed from
    (write-state, cursor, buffer, k_cr) *)
-Definition remaining (s : state) : list N :=
-  let r := phase_rest (k_wbuf (k s)) (cbuf s) (k_position (k s)) in
-  match k_wstate (k s) with
-  | WS_BEFORE => r ++ text_of (cbuf s) ++ nl_text (k_cr (k s))
-  | WS_MAIN => r ++ nl_text (k_cr (k s))
-  | WS_AFTER => r
-  end.
+Example def_remaining : forall s,
+  remaining s =
+  (let r := phase_rest (k_wbuf (k s)) (cbuf s) (k_position (k s)) in
+   match k_wstate (k s) with
+   | WS_BEFORE => r ++ text_of (cbuf s) ++ nl_text (k_cr (k s))
+   | WS_MAIN => r ++ nl_text (k_cr (k s))
+   | WS_AFTER => r
+   end).
+Proof. reflexivity. Qed.
 (* same for the event machine, up to the closing newline, whose text is only chosen (from k_cr) when
    the payload has been sent *)
-Definition remaining_u (s : state) : list N :=
-  let r := phase_rest (u_wbuf (u s)) (ubuf s) (u_position (u s)) in
-  match u_wstate (u s) with
-  | WS_BEFORE => r ++ text_of (ubuf s)
-  | WS_MAIN => r
-  | WS_AFTER => r
-  end.
+Example def_remaining_u : forall s,
+  remaining_u s =
+  (let r := phase_rest (u_wbuf (u s)) (ubuf s) (u_position (u s)) in
+   match u_wstate (u s) with
+   | WS_BEFORE => r ++ text_of (ubuf s)
+   | WS_MAIN => r
+   | WS_AFTER => r
+   end).
+Proof. reflexivity. Qed.
 
 (* event-side read/test handler requests *)
-Definition uns_req (q : hreq) : bool :=
-  match q with HRead UNSOL _ _ _ _ | HTest UNSOL _ _ _ _ => true | _ => false end.
+Example def_uns_req : forall q,
+  uns_req q = match q with HRead UNSOL _ _ _ _ | HTest UNSOL _ _ _ _ => true | _ => false end.
+Proof. reflexivity. Qed.
 
 (* ------------------------------------------------------------------ *)
 (* 2. a whole unit, by pure iteration of the accepting step             *)
@@ -165,16 +188,12 @@ Proof. exact Lemmas_C11.C11_unit_uns_proof. Qed.
 Print Assumptions C11_unit_uns.
 
 (* what remains to be sent right after the flush has been entered with a fresh cursor is the unit *)
-Theorem C11_remaining_fresh : forall s after,
+Theorem C11_remaining_fresh : forall s after uafter,
   remaining (setk_state CS_FLUSH (start_flush_c after s)) =
     nl_text (k_cr (k s)) ++ text_of (cbuf s) ++ nl_text (k_cr (k s)) /\
   remaining (setk_state CS_FLUSH (start_flush_raw_c after s)) = text_of (cbuf s) /\
-  remaining_u (setu_state US_FLUSH (start_flush_u after s)) = nl_text (k_cr (k s)) ++ text_of (ubuf s).
-Proof.
-  exact (fun s after => conj (Lemmas_C11.remaining_fresh s after)
-                             (conj (Lemmas_C11.remaining_fresh_raw s after)
-                                   (Lemmas_C11.remaining_u_fresh s after))).
-Qed.
+  remaining_u (setu_state US_FLUSH (start_flush_u uafter s)) = nl_text (k_cr (k s)) ++ text_of (ubuf s).
+Proof. exact Lemmas_C11.C11_remaining_fresh_proof. Qed.
 Print Assumptions C11_remaining_fresh.
 
 (* ------------------------------------------------------------------ *)
@@ -227,11 +246,15 @@ Local Notation run := (Fsm.run D ioS muS hS io_read io_write mu_lock mu_unlock h
 
 (* the application never answers HOLD from an event-side handler (scope decision D3: out of
    contract; such an answer forces the command machine to CS_HOLD and would truncate its unit) *)
-Definition no_uns_hold : Prop :=
-  forall h q, uns_req q = true -> r_code (snd (h_call h q)) <> RC_HOLD.
+Local Notation no_uns_hold := (Lemmas_C11.no_uns_hold hS h_call).
+Example def_no_uns_hold :
+  no_uns_hold = (forall h q, uns_req q = true -> r_code (snd (h_call h q)) <> RC_HOLD).
+Proof. reflexivity. Qed.
 
 (* n calls of cat_service's body *)
-Definition svc_n (n : nat) (w : world) : world := iter n (fun w => fst (service_body w)) w.
+Local Notation svc_n := (Lemmas_C11.svc_n D ioS muS hS io_read io_write mu_lock mu_unlock h_call).
+Example def_svc_n : forall n w, svc_n n w = iter n (fun w => fst (service_body w)) w.
+Proof. reflexivity. Qed.
 
 (* ---- 1. the one-step laws of the flush engines, ANY world in CS_FLUSH / US_FLUSH ---- *)
 
@@ -495,6 +518,6 @@ Proof. vm_compute. reflexivity. Qed.
 
 (* the two machines are never in their FLUSH states together; the command machine waits *)
 Example C11_ex_states :
-  map (fun n => (k_state (k (st _ _ _ (exW [] n))), u_state (u (st _ _ _ (exW [] n))))) (seq 11 4) =
+  map (fun n => (k_state (k (st _ _ _ (exW [] n))), u_state (u (st _ _ _ (exW [] n))))) (seq 10 4) =
   [(CS_RUN_LOOP, US_FLUSH); (CS_FLUSH_WAIT, US_FLUSH); (CS_FLUSH, US_AFTER_OK); (CS_FLUSH, US_IDLE)].
 Proof. vm_compute. reflexivity. Qed.
